@@ -1,5 +1,6 @@
 import Driver.Codec
 import TacklerModel.Model.Filter
+import TacklerModel.Model.Regex
 /-! decoding of model-side filter definitions (`mfilter`) and the placeholder pattern matcher -/
 open Lean Tackler Codec
 
@@ -19,6 +20,27 @@ def simpleMatch (pat hay : String) : Bool :=
   else if pre then (p.drop 2).isSuffixOf h
   else if suf then (p.take (p.length - 2)).isPrefixOf h
   else p == h
+
+/-- whole-string match through the regex model: `new_full_haystack_regex(pat).is_match(hay)` -/
+def regexMatch (pat hay : String) : Bool :=
+  match Regex.newFullHaystack pat with
+  | some r => Regex.search r hay.toList
+  | none => false
+
+def patternInSubset (pat : String) : Bool :=
+  Regex.patternSizeOk pat &&
+  (match Regex.newFullHaystack pat with
+   | some r => !r.usesPerl
+   | none => false)
+
+/-- all patterns of a filter tree are inside the modelled regex subset (else the driver answers UNDEF) -/
+partial def filterInSubset : Filter → Bool
+  | .and fs => fs.all filterInSubset
+  | .or fs => fs.all filterInSubset
+  | .not f => filterInSubset f
+  | .code re | .desc re | .tags re | .comments re | .postAccount re | .postComment re | .postCommodity re => patternInSubset re
+  | .postAmountEq re _ | .postAmountLess re _ | .postAmountGreater re _ => patternInSubset re
+  | _ => true
 
 partial def filterOfJson (j : Json) : R Filter := do
   let k ← str (← field j "k")
